@@ -35,6 +35,7 @@ type Contract struct {
 	Flags    map[string]bool // inline pure trusted noinline lemma
 	Props    []string
 	Fuel     int
+	FuelFor  map[string]int
 	File     string
 }
 
@@ -50,7 +51,7 @@ func (c *Contract) clauses(kind string) []*Clause {
 
 var reFuncDirective = regexp.MustCompile(`^func\s+(.+)$`)
 var reLoop = regexp.MustCompile(`^loop\s+(\d+)\s*:\s*(invariant|rangeinv|decreases|with)\s*(?:\[([A-Za-z0-9_\-]+)\])?\s+(.*)$`)
-var reAssert = regexp.MustCompile(`^assert\s+([A-Za-z0-9_\-]+)\s+before\s+"((?:[^"\\]|\\.)*)"\s*:\s*(.*)$`)
+var reAssert = regexp.MustCompile(`^(assert|lemma)\s+([A-Za-z0-9_\-]+)\s+before\s+"((?:[^"\\]|\\.)*)"\s*:\s*(.*)$`)
 var reClause = regexp.MustCompile(`^(requires|ensures|decreases|fmtwhen)\s*(?:\[([A-Za-z0-9_\-]+)\])?\s+(.*)$`)
 
 func funcID(name string) string {
@@ -106,7 +107,7 @@ func parseContractFile(path string) ([]*Contract, error) {
 			continue
 		}
 		if m := reAssert.FindStringSubmatch(body); m != nil {
-			last = &Clause{Kind: "assert", Label: m[1], Before: m[2], Expr: m[3], Line: loc}
+			last = &Clause{Kind: m[1], Label: m[2], Before: m[3], Expr: m[4], Line: loc}
 			cur.Clauses = append(cur.Clauses, last)
 			continue
 		}
@@ -128,7 +129,18 @@ func parseContractFile(path string) ([]*Contract, error) {
 			last = nil
 			continue
 		case "fuel":
-			fmt.Sscanf(fields[1], "%d", &cur.Fuel)
+			for _, f := range fields[1:] {
+				if i := strings.Index(f, "="); i > 0 {
+					n := 0
+					fmt.Sscanf(f[i+1:], "%d", &n)
+					if cur.FuelFor == nil {
+						cur.FuelFor = map[string]int{}
+					}
+					cur.FuelFor[f[:i]] = n
+				} else {
+					fmt.Sscanf(f, "%d", &cur.Fuel)
+				}
+			}
 			last = nil
 			continue
 		}
@@ -329,6 +341,9 @@ func substExpr(e ast.Expr, repl map[*ast.CallExpr]ast.Expr) ast.Expr {
 					for i := range s.Results {
 						s.Results[i] = substExpr(s.Results[i], repl)
 					}
+					return false
+				case *ast.ExprStmt:
+					s.X = substExpr(s.X, repl)
 					return false
 				}
 				return true
@@ -626,14 +641,33 @@ func (w *weaver) weave(c *Contract) {
 		}
 	}
 	oldUsed := map[string]bool{}
+	valOldUsed := map[string]bool{}
+	allParams := map[string]bool{}
+	for _, p := range params {
+		allParams[p.name] = true
+	}
 	for _, cl := range c.Clauses {
 		expr := rewriteImp(cl.Expr)
-		if cl.Kind == "invariant" || cl.Kind == "rangeinv" || cl.Kind == "loopdec" || cl.Kind == "assert" {
+		if cl.Kind == "invariant" || cl.Kind == "rangeinv" || cl.Kind == "loopdec" || cl.Kind == "assert" || cl.Kind == "lemma" {
 			if strings.Contains(expr, "old(") {
 				for p := range ptrParams {
 					oldUsed[p] = true
 				}
-				e2, err := rewriteOld(expr, ptrParams)
+				for _, p := range params {
+					if !p.ptr && strings.Contains(expr, p.name) {
+						valOldUsed[p.name] = true
+					}
+				}
+				src := expr
+				if cl.Kind == "lemma" {
+					src = "func() { " + expr + " }"
+				}
+				e2, err := rewriteOld(src, allParams)
+				if err == nil && cl.Kind == "lemma" {
+					e2 = strings.TrimSpace(e2)
+					e2 = strings.TrimSuffix(strings.TrimPrefix(e2, "func() {"), "}")
+					e2 = strings.ReplaceAll(strings.TrimSpace(e2), "\n", "; ")
+				}
 				if err != nil {
 					w.fail("%s: %v in %q", cl.Line, err, expr)
 					continue
@@ -690,7 +724,7 @@ func (w *weaver) weave(c *Contract) {
 			}
 			sf.splices = append(sf.splices, splice{loops[cl.Loop], text})
 			sf.needImport = true
-		case "assert":
+		case "assert", "lemma":
 			off := -1
 			ast.Inspect(fd.Body, func(m ast.Node) bool {
 				if off >= 0 {
@@ -712,11 +746,14 @@ func (w *weaver) weave(c *Contract) {
 				continue
 			}
 			text := fmt.Sprintf("verifspec.Assert(%q, func() bool { return %s }); ", cl.Label, expr)
+			if cl.Kind == "lemma" {
+				text = fmt.Sprintf("verifspec.Lemma(func() { %s }); ", expr)
+			}
 			sf.splices = append(sf.splices, splice{off, text})
 			sf.needImport = true
 		}
 	}
-	if len(oldUsed) > 0 {
+	if len(oldUsed)+len(valOldUsed) > 0 {
 		// ghost snapshots of the pointees at function entry (shallow copies)
 		var names []string
 		for p := range oldUsed {
@@ -726,6 +763,14 @@ func (w *weaver) weave(c *Contract) {
 		text := ""
 		for _, p := range names {
 			text += fmt.Sprintf(" %s__oldv := *%s; %s__old := &%s__oldv; _ = %s__old;", p, p, p, p, p)
+		}
+		var vnames []string
+		for p := range valOldUsed {
+			vnames = append(vnames, p)
+		}
+		sort.Strings(vnames)
+		for _, p := range vnames {
+			text += fmt.Sprintf(" %s__old := %s; _ = %s__old;", p, p, p)
 		}
 		sf.splices = append(sf.splices, splice{sf.fset.Position(fd.Body.Lbrace).Offset + 1, text})
 	}
